@@ -77,14 +77,17 @@ type callResult struct {
 	bind   string
 }
 
-func oneCall(src string, viaFile bool) (r callResult) {
+func oneCall(src string, viaFile bool) (r callResult) { return oneCallOpt(src, viaFile, 0) }
+
+// oneCallOpt: optmask bit 0 = disasm, bit 1 = trace, bit 2 = stats.
+func oneCallOpt(src string, viaFile bool, optmask int) (r callResult) {
 	var out, log lockedBuf
 	defer func() {
 		if p := recover(); p != nil {
 			r.err = fmt.Sprintf("panic: %v", p)
 		}
 	}()
-	opts := []bcl.Option{bcl.OptOutput(&out), bcl.OptLogger(&log)}
+	opts := []bcl.Option{bcl.OptOutput(&out), bcl.OptLogger(&log), bcl.OptDisasm(optmask&1 != 0), bcl.OptStats(optmask&4 != 0)}
 	var p *bcl.Prog
 	var err error
 	if viaFile {
@@ -99,7 +102,7 @@ func oneCall(src string, viaFile bool) (r callResult) {
 	var d bytes.Buffer
 	p.Dump(&d)
 	r.dump = d.Bytes()
-	res, b, xerr := bcl.Execute(p)
+	res, b, xerr := bcl.Execute(p, bcl.OptOutput(&out), bcl.OptLogger(&log), bcl.OptTrace(optmask&2 != 0), bcl.OptStats(optmask&4 != 0))
 	r.err, r.log, r.out = errStr(xerr), log.String(), out.String()
 	r.blocks, r.bind = fmt.Sprintf("%#v", res), fmt.Sprintf("%#v", b)
 	return
@@ -146,7 +149,9 @@ func checkC12(c caseC12) (viol string, nontrivial bool, feats []string) {
 		}
 		done := make(chan error, 1)
 		go func() {
-			_, err := bcl.ParseFile(f, bcl.OptLogger(&log), bcl.OptOutput(io.Discard))
+			// statistics and listing are produced by the parser goroutine too
+			var sink lockedBuf
+			_, err := bcl.ParseFile(f, bcl.OptLogger(&log), bcl.OptOutput(&sink), bcl.OptStats(c.N%2 == 1), bcl.OptDisasm(c.N%3 == 1))
 			done <- err
 		}()
 		var err error
@@ -173,7 +178,7 @@ func checkC12(c caseC12) (viol string, nontrivial bool, feats []string) {
 	case "callers-distinct":
 		seq := make([]callResult, len(c.Sources))
 		for i, s := range c.Sources {
-			seq[i] = oneCall(s, i%3 == 2)
+			seq[i] = oneCallOpt(s, i%3 == 2, (i+c.N)%8)
 		}
 		con := make([]callResult, len(c.Sources))
 		var wg sync.WaitGroup
@@ -183,7 +188,7 @@ func checkC12(c caseC12) (viol string, nontrivial bool, feats []string) {
 			go func(i int, s string) {
 				defer wg.Done()
 				<-start
-				con[i] = oneCall(s, i%3 == 2)
+				con[i] = oneCallOpt(s, i%3 == 2, (i+c.N)%8)
 			}(i, s)
 		}
 		close(start)
@@ -201,7 +206,16 @@ func checkC12(c caseC12) (viol string, nontrivial bool, feats []string) {
 		if err != nil {
 			return "", false, append(feats, "skipped:not-accepted")
 		}
-		res0, b0, err0 := bcl.Execute(p)
+		// every run (the sequential one too) with the same options: every
+		// second case traces, each caller into a writer of its own
+		xopts := func() []bcl.Option {
+			if c.N%2 == 0 {
+				var own lockedBuf
+				return []bcl.Option{bcl.OptTrace(true), bcl.OptStats(true), bcl.OptOutput(&own)}
+			}
+			return nil
+		}
+		res0, b0, err0 := bcl.Execute(p, xopts()...)
 		out0, log0 := out.String(), log.String()
 		type r struct {
 			blocks, bind, err string
@@ -215,7 +229,7 @@ func checkC12(c caseC12) (viol string, nontrivial bool, feats []string) {
 			go func(i int) {
 				defer wg.Done()
 				<-start
-				res, b, err := bcl.Execute(p)
+				res, b, err := bcl.Execute(p, xopts()...)
 				got[i] = r{fmt.Sprintf("%#v", res), fmt.Sprintf("%#v", b), errStr(err)}
 			}(i)
 		}
@@ -226,9 +240,11 @@ func checkC12(c caseC12) (viol string, nontrivial bool, feats []string) {
 				return fmt.Sprintf("Execute %d of %d on a shared Prog: result differs from the sequential run: %v vs %v", i, c.N, g, want), false, feats
 			}
 		}
-		// the writers got N+1 copies of the lines, in some interleaving
+		// the writers got N+1 copies of the lines, in some interleaving (a
+		// trace line is made of several writes, so traced runs interleave
+		// within lines and are compared by their results only)
 		wantLines := sortedLines(strings.Repeat(out0, c.N+1))
-		if gl := sortedLines(out.String()); strings.Join(gl, "\n") != strings.Join(wantLines, "\n") {
+		if gl := sortedLines(out.String()); c.N%2 != 0 && strings.Join(gl, "\n") != strings.Join(wantLines, "\n") {
 			return fmt.Sprintf("output of %d concurrent runs is not %d copies of the sequential output", c.N, c.N), false, feats
 		}
 		if strings.Count(log.String(), "WARNING") != strings.Count(log0, "WARNING")*(c.N+1) {
@@ -324,6 +340,7 @@ func genC12(t *rapid.T) caseC12 {
 			in.LexAt = in.Lines - 1
 		}
 		c.Input = &in
+		c.N = gen.Int(t, 0, 5, "optphase")
 		// many small chunks so that the lexer is still appending newlines of
 		// later chunks while the parser formats diagnostics
 		for i, n := 0, gen.Int(t, 2, 60, "nreads"); i < n; i++ {
@@ -338,6 +355,7 @@ func genC12(t *rapid.T) caseC12 {
 		}
 	case 1:
 		c.Kind = "callers-distinct"
+		c.N = gen.Int(t, 0, 7, "optphase")
 		n := gen.Int(t, 2, 16, "ncallers")
 		for i := 0; i < n; i++ {
 			c.Sources = append(c.Sources, srcFor12(t, true))
